@@ -189,6 +189,10 @@ pub struct NetProgram {
     /// links with equal channel metrics are connected with one and the same `ChannelRef` object
     #[serde(default)]
     pub share_channels: bool,
+    /// C04 fault: while the k-th scripted timer handler runs, another thread sets up a simulation of its own
+    /// (kind even: a generic `Runtime`, odd: a `Sim`): (k, kind)
+    #[serde(default)]
+    pub intruder: Option<(u32, u8)>,
     /// extra top-level nodes built from des's own module blocks, each holding a token in its task / state:
     /// 1 = AsyncFn::new, 2 = AsyncFn::failable, 3 = AsyncFn::io + require_join, 4 = HandlerFn,
     /// 5 = AsyncFn::new whose handler hands every message to a freshly spawned worker task, awaits it and logs the
@@ -547,6 +551,7 @@ impl Module for ScriptMod {
                 rec(self.idx, Ev::Beat { i: i as u16, inc: msg.header().id });
                 return;
             }
+            crate::intr::hook();
             rec(self.idx, Ev::Beat { i: i as u16, inc: self.inc });
             if spec.chained && i + 1 < spec.beats.len() {
                 let d = spec.beats[i + 1].at_ns.saturating_sub(spec.beats[i].at_ns);
@@ -1308,6 +1313,13 @@ pub fn run_net(prog: &NetProgram, opts: &RunOpts) -> NetResult {
         res.ledger = c.ledger.report();
     }
     res
+}
+
+/// what the intruding thread of the C04 fault does: a net simulation of its own, built and dropped
+pub fn build_and_drop_empty_sim() {
+    let sim = Sim::new(());
+    let rt = Builder::seeded(5).quiet().build(sim.freeze());
+    drop(rt);
 }
 
 pub fn trace_hash(trace: &[Rec]) -> u64 {
